@@ -2,7 +2,7 @@ SPECIFICATION Spec
 CONSTANTS
   Mode = "mc"
   MaxNodes = 10
-  Enabled = {"Module", "Fn", "Goto", "Loop", "If", "Block", "Deref", "Set"}
+  Enabled = {"Module", "Fn", "Goto", "Loop", "If", "Block", "Deref"}
   FlagSets <- FlagSets_none
   VarForms <- VarForms_init
   FnNames = {"f"}
